@@ -96,6 +96,27 @@ static void run_dcase(long idx)
             v_stat("fcs_forgeries", 1); free(o2); free(g);
         }
     }
+    /* ---- the same frame with its header re-encoded to carry the content size in the 8-byte field (the format allows it at any size; the compressor only uses it
+     * from 4 GiB): the honest value must decode, lies in the low AND in the high half of the field must be refused by every decoder */
+    if (F.has_fcs) {
+        size_t const off = (P.magicless ? 0 : 4) + 1 + (F.single_segment ? 0 : 1) + (size_t)F.dictid_bytes; size_t const hOld = off + (size_t)F.fcs_bytes;
+        size_t const fs8 = fs - (size_t)F.fcs_bytes + 8; uint8_t* g = (uint8_t*)malloc(fs8); memcpy(g, f, off); g[P.magicless ? 0 : 4] = (uint8_t)((g[P.magicless ? 0 : 4] & 0x3F) | 0xC0); memcpy(g + off + 8, f + hOld, fs - hOld);
+        unsigned long long const vals[8] = { n, (unsigned long long)n + (1ULL << 32), (unsigned long long)n + (2ULL << 32), (unsigned long long)n + (0x7FFFFFFFULL << 32), (unsigned long long)n + 0x8000000000000000ULL, (unsigned long long)n + 1, n ? (unsigned long long)n - 1 : 5, (unsigned long long)n + (1ULL << 31) };
+        uint8_t* o2 = (uint8_t*)malloc(n + 64);
+        for (int q = 0; q < 8; q++) {
+            unsigned long long const nv = vals[q]; for (int b2 = 0; b2 < 8; b2++) g[off + (size_t)b2] = (uint8_t)(nv >> (8 * b2));
+            SETUP_D(); size_t const one = ZSTD_decompressDCtx(d, o2, n + 64, g, fs8);
+            if (q == 0) { if (ZSTD_isError(one) || one != n || memcmp(o2, x, n)) v_viol("fcs8:frame-with-honest-8-byte-content-size-rejected", "%s: %s", desc, ZSTD_isError(one) ? ZSTD_getErrorName(one) : "wrong bytes"); v_stat("fcs8_honest", 1); continue; }
+            if (!ZSTD_isError(one)) v_viol("fcs:one-shot-decode-accepts-wrong-content-size", "%s 8-byte field=%llu actual=%zu", desc, nv, n);
+            for (int hist = 0; hist < 2; hist++) { SETUP_D(); size_t prod = 0; if (stream_reports_complete(d, g, fs8, n + 64, o2, hist ? 1 + vr_u64(&r, fs8) : fs8, &prod)) v_viol("fcs:streaming-decode-accepts-wrong-content-size", "%s 8-byte field=%llu actual=%zu chunked=%d", desc, nv, n, hist); }
+            if (!P.magicless) { SETUP_D(); ZSTD_decompressBegin(d); size_t ip = 0, op = 0; int complete = 0; long guard = 0;
+                while (1) { size_t const need = ZSTD_nextSrcSizeToDecompress(d); if (need == 0) { complete = 1; break; } if (need > fs8 - ip) break; size_t const rr = ZSTD_decompressContinue(d, o2 + op, n + 64 - op, g + ip, need); if (ZSTD_isError(rr)) break; ip += need; op += rr; if (++guard > 1000000) break; }
+                if (complete) v_viol("fcs:bufferless-decode-accepts-wrong-content-size", "%s 8-byte field=%llu actual=%zu", desc, nv, n); }
+            {   unsigned long long const got = ZSTD_getFrameContentSize(g, fs8); if (!P.magicless && got != nv) v_viol("fcs8:getFrameContentSize-misreads-the-8-byte-field", "%s field=%llu read=%llu", desc, nv, got); }
+            v_stat("fcs_forgeries", 1); v_stat("fcs8_forgeries", 1);
+        }
+        free(o2); free(g);
+    }
     /* ---- stored checksum damaged / content damaged */
     if (F.has_checksum) {
         for (int q = 0; q < 6; q++) {
